@@ -7,6 +7,7 @@ From Coq Require Import ZArith List Bool Lia Arith PeanoNat.
 From Draco Require Import Model.CornerTable Model.EbEncoder Proofs.CornerTable_proofs Proofs.EbEncoder_proofs.
 From Draco Require Model.Edgebreaker Proofs.Edgebreaker_proofs Proofs.Edgebreaker_fan_proofs Proofs.Edgebreaker_compact_proofs.
 From Draco Require Import Proofs.EbTrace_proofs Proofs.EbSimEnc_proofs Proofs.EbSimDec_proofs Proofs.EbSimLoop_proofs Proofs.EbSim_proofs.
+From Draco Require Import Proofs.EbSimS_proofs Proofs.EbSimEv_proofs Proofs.EbSimEvChk_proofs.
 Import ListNotations.
 
 Lemma filter_partition_len {A} (p : A -> bool) l : length l = length (filter p l) + length (filter (fun x => negb (p x)) l).
@@ -133,4 +134,96 @@ Theorem ebsim_roundtrip_noevent_ct' faces t o rm : ct_create faces = Some t -> e
   exists n s, eb_decode_of o rm = D.Ok (n, s) /\ eb_iso (ct_c2v t) (ct_opp t) (o_pcc o) (D.c2v s) (D.copp s).
 Proof.
   intros H E Ev Sz G3. apply (ebsim_roundtrip_noevent_ct faces t o rm); auto. apply (verts_fit_noevent faces t o); auto.
+Qed.
+
+(** ** the same count WITH split events, for every encoding that satisfies the script conditions of
+    [EbSimEv_proofs.dec_roundtrip_events]: an S with a registered split corner also merges two decoder vertices (one goes to the
+    invalid list), so again cntv = used vertices + at most one invalid vertex per S *)
+Theorem verts_fit_script faces t o : ct_create faces = Some t -> eb_encode_ct t = EOk o ->
+  (Z.of_nat (length (o_syms o)) < 2147483648)%Z ->
+  (forall j, j < length (o_syms o) -> script_atE (ct_c2v t) (ct_opp t) (length faces) (o_pcc o) (rev (o_syms o)) (EVseg_of o) j) ->
+  start_ok_g (ct_c2v t) (ct_opp t) (length faces) (o_pcc o) (rev (o_syms o))
+             (topsE (rev (o_syms o)) (EVseg_of o) (length (o_syms o))) (o_bits o) ->
+  verts_fit o.
+Proof.
+  intros H E Hns Sc SO.
+  destruct (ct_create_wf _ _ H) as (Hlen & OK & Hv & FAN & Dg).
+  destruct (eb_encode_ct_counts faces t o H E) as (_ & Ns & _ & _ & _ & _ & Nv & _).
+  destruct (counters _ _ H) as (_ & _ & _ & _ & Ni).
+  destruct (single_fan _ _ H) as [F1 _].
+  set (c2v := ct_c2v t) in *. set (opp := ct_opp t) in *. set (nf := length faces) in *. set (nv := length (ct_vcorn t)) in *.
+  unfold eb_encode_ct in E. fold c2v opp nv in E.
+  destruct (encode_facts_wf c2v opp nf nv (ct_niso t) (ct_ndeg t) o Hlen OK Hv FAN E) as (L & ND & _).
+  destruct (eb_encode_total c2v opp nf nv (ct_niso t) (ct_ndeg t) Hlen OK Hv FAN) as [T1 T2].
+  destruct (Nat.eq_dec nf (ct_ndeg t)) as [Eq|Ne]; [rewrite (T1 Eq) in E; discriminate|].
+  destruct (T2 Ne) as (o' & E' & OO & _). rewrite E in E'. inversion E'; subst o'. clear E' T1 T2.
+  destruct OO as (_ & Rng & Comp & _).
+  set (Q := o_pcc o) in *. set (Y := rev (o_syms o)) in *.
+  assert (LY : length Y = length (o_syms o)) by (unfold Y; apply rev_length).
+  assert (Rq : forall j, j < length Q -> nth j Q 0 < 3 * nf /\ is_degenerated c2v (nth j Q 0 / 3) = false).
+  { intros j Hj. rewrite Forall_forall in Rng. apply Rng. apply nth_In. auto. }
+  set (F := Z.of_nat (length Q)).
+  destruct (dec_precompact_events c2v opp nf Hlen OK Q Rq ND (3 * F)%Z (cntv Y) true Y eq_refl ltac:(lia) (Z.le_refl _) FAN (EVseg_of o)
+              ltac:(rewrite LY; exact Hns) (o_bits o) Comp ltac:(intros j Hj; apply Sc; lia) ltac:(rewrite LY; exact SO))
+    as (d & s' & Ed & Es & Nv' & Evc & Einv & Linv & HWd & HFd & Hnfd & HW2 & HJ2 & Iso).
+  (* every isolated vertex is on the invalid list *)
+  assert (HC : Edgebreaker_compact_proofs.COV d).
+  { apply (Edgebreaker_compact_proofs.sym_loop_COV (3 * F)%Z (cntv Y) (Z.of_nat (length Y)) Y 0%Z (D.init_st (rev (REM Y (EVseg_of o) 0))) d); auto.
+    - apply Edgebreaker_proofs.W_init; [unfold F; lia|apply cntv_nonneg].
+    - apply Edgebreaker_fan_proofs.FI_init.
+    - intros w Hw. cbn in Hw. lia.
+    - cbn [D.nfaces D.init_st]. unfold F. lia. }
+  assert (Env : D.nv d = cntv Y).
+  { assert (HWn : Edgebreaker_proofs.W (3 * F)%Z (cntv Y) (D.nfaces d) d) by (rewrite Hnfd; exact HWd).
+    destruct (Edgebreaker_proofs.start_loop_W (3 * F)%Z (cntv Y) _ _ _ _ _ _ eq_refl HWn (Edgebreaker_proofs.w_stack _ _ _ _ HWn) Es) as (_ & _ & X & _).
+    congruence. }
+  pose proof (cntv_nonneg Y) as Hc0.
+  destruct Iso as (_ & _ & _ & _ & Iv).
+  pose proof (count_core (Z.to_nat (cntv Y)) (fun v => negb (D.vc d (Z.of_nat v) =? -1)%Z) (D.invalid d)
+                (fun v => vtx c2v (cmap Q (Z.to_nat (D.vc d (Z.of_nat v))))) (ct_vcorn t)) as CC.
+  assert (Used : forall v, v < Z.to_nat (cntv Y) -> negb (D.vc d (Z.of_nat v) =? -1)%Z = true ->
+            (0 <= D.vc d (Z.of_nat v) < 3 * F)%Z /\ D.c2v s' (D.vc d (Z.of_nat v)) = Z.of_nat v).
+  { intros v Hvv U. apply negb_true_iff in U. apply Z.eqb_neq in U.
+    assert (Rv : (0 <= Z.of_nat v < D.nv s')%Z) by lia.
+    split.
+    - destruct (Edgebreaker_proofs.w_lr _ _ _ _ HW2 _ Rv) as [X|X]; [rewrite Evc in X; congruence|rewrite Evc in X; exact X].
+    - rewrite <- Evc. apply (Edgebreaker_compact_proofs.j_vc _ _ HJ2); auto. rewrite Evc. exact U. }
+  assert (Fit : Z.to_nat (cntv Y) + length (filter is_none_b (ct_vcorn t)) <= length (ct_vcorn t) + length (D.invalid d)).
+  { apply CC.
+    - intros v Hvv U. apply negb_false_iff in U. apply Z.eqb_eq in U. apply HC; [lia|exact U].
+    - intros v v' Hvv Hvv' U U' Eg. destruct (Used v Hvv U) as (R1 & C1). destruct (Used v' Hvv' U') as (R1' & C1').
+      assert (X : D.c2v s' (Z.of_nat (Z.to_nat (D.vc d (Z.of_nat v)))) = D.c2v s' (Z.of_nat (Z.to_nat (D.vc d (Z.of_nat v'))))).
+      { apply (Iv (Z.to_nat (D.vc d (Z.of_nat v))) (Z.to_nat (D.vc d (Z.of_nat v')))); [unfold F in *; lia|unfold F in *; lia|exact Eg]. }
+      rewrite !Z2Nat.id in X by lia. lia.
+    - intros v Hvv U. destruct (Used v Hvv U) as (R1 & _).
+      set (dd := Z.to_nat (D.vc d (Z.of_nat v))). assert (Hdd : dd < 3 * length Q) by (unfold dd, F in *; lia).
+      assert (Hj : dd / 3 < length Q) by (apply Nat.div_lt_upper_bound; lia).
+      destruct (Rq (dd / 3) Hj) as (Rc & Dc).
+      assert (Hc : cmap Q dd < 3 * nf).
+      { unfold cmap. destruct (dd mod 3) as [|[|r]]; cbn [rot]; auto using next_lt, prev_lt. }
+      assert (Dcc : is_degenerated c2v (cmap Q dd / 3) = false) by (unfold cmap; rewrite rot_face; exact Dc).
+      split; [apply Hv; exact Hc|].
+      destruct (F1 (cmap Q dd) Hc ltac:(rewrite <- Dg; exact Dcc)) as (l & El & _). fold c2v in El. rewrite El. discriminate. }
+  unfold verts_fit. fold Y. rewrite Nv, Ns.
+  assert (Ecnt : count_occ Z.eq_dec Y 1%Z = count_occ Z.eq_dec (o_syms o) TOPOLOGY_S) by (unfold Y; apply count_occ_rev).
+  assert (Eni : ct_niso t = length (filter is_none_b (ct_vcorn t))) by exact Ni.
+  lia.
+Qed.
+
+(** hence the checked round trip against DecodeConnectivity needs no premise on the vertex count (any number of runs) *)
+Theorem ebsim_roundtrip_checked_ct' faces t o rm : ct_create faces = Some t -> eb_encode_ct t = EOk o ->
+  class_script (ct_c2v t) (ct_opp t) (length faces) o = true ->
+  (Z.of_nat (3 * length faces + length (ct_vcorn t)) < 2147483648)%Z ->
+  ((3 * o_nfaces o) / 2 <= (o_nverts o * (o_nverts o - 1)) / 2)%Z ->
+  (Z.of_nat (length (o_events o)) <= o_nfaces o)%Z ->
+  exists n s, eb_decode_of o rm = D.Ok (n, s) /\ eb_iso (ct_c2v t) (ct_opp t) (o_pcc o) (D.c2v s) (D.copp s).
+Proof.
+  intros H E Cl Sz G3 Hev. apply (ebsim_roundtrip_checked_ct faces t o rm); auto.
+  unfold class_script in Cl. cbv zeta in Cl.
+  apply andb_prop in Cl. destruct Cl as [Cl C4]. apply andb_prop in Cl. destruct Cl as [Cl C3]. apply andb_prop in Cl. destruct Cl as [C1 C2].
+  rewrite rev_length in *.
+  apply (verts_fit_script faces t o H E).
+  - apply Z.ltb_lt. exact C1.
+  - intros j Hj. apply script_atE_b_ok. rewrite forallb_forall in C3. apply C3. apply in_seq. lia.
+  - apply (start_ok_b_ok _ _ _ _ _ (EVseg_of o)). exact C4.
 Qed.
